@@ -122,6 +122,14 @@ func c02History(r *hx.Run, w *W, rnd *rand.Rand, hi int, epochs []c02Epoch) {
 			}})
 		}
 		before := w.Farm.LogLen()
+		// wall-clock marks of the episode's steps (diagnostics in the witness only, never part of a verdict)
+		t0 := time.Now()
+		wall := map[string]int64{}
+		mark := func(step string) { wall[step] = time.Since(t0).Milliseconds() }
+		cs["wall_ms_since_fetcher_started"] = wall
+		// scheduleLost: a step of the schedule could not be established within its watchdog; the episode is then only
+		// inspected for stuck requests, its labels are not judged
+		scheduleLost := false
 		// the fetcher
 		ctxF, cancelF := context.WithCancel(context.Background())
 		_ = ctxF
@@ -181,7 +189,9 @@ func c02History(r *hx.Run, w *W, rnd *rand.Rand, hi int, epochs []c02Epoch) {
 			startWaiters()
 			if !hx.WaitUntil(15*time.Second, func() bool { return w.Pts.Count("get.registered")-baseReg >= int64(ep.Waiters) }) {
 				r.InconclusiveCase("C02: waiters did not register")
+				scheduleLost = true
 			}
+			mark("waiters_registered")
 		}
 		var aborted *hx.Result
 		if ep.Variant == "waiter_client_abort" {
@@ -239,6 +249,7 @@ func c02History(r *hx.Run, w *W, rnd *rand.Rand, hi int, epochs []c02Epoch) {
 			cancelClient(fetcherClient)
 			r.Add("fetcher_client_aborts", 1)
 		}
+		mark("gate_opened")
 		close(g)
 		if hold != nil {
 			// the completion is now blocked sending to the waiter that registered but does not receive yet
@@ -253,6 +264,7 @@ func c02History(r *hx.Run, w *W, rnd *rand.Rand, hi int, epochs []c02Epoch) {
 			time.Sleep(time.Duration(rnd.Intn(300)) * time.Microsecond)
 			hold.Release()
 			w.Pts.Disarm(hold)
+			mark("held_waiter_released")
 		}
 		if ep.Variant == "late" {
 			startWaiters()
@@ -266,6 +278,7 @@ func c02History(r *hx.Run, w *W, rnd *rand.Rand, hi int, epochs []c02Epoch) {
 		case <-time.After(20 * time.Second):
 			completed = false
 		}
+		mark("all_requests_returned")
 		// server-side quiescence: the fetch's completion (Cacheable / HitForPass) has run to its end
 		if completed && !hx.WaitUntil(20*time.Second, func() bool { return completionsDone(w.Pts) > savedBefore }) {
 			completed = false
@@ -294,6 +307,12 @@ func c02History(r *hx.Run, w *W, rnd *rand.Rand, hi int, epochs []c02Epoch) {
 			hangSeen(r)
 			r.Violate("request_never_completed", map[string]string{"outcome": ep.Outcome, "variant": ep.Variant}, stuckWhy,
 				map[string]interface{}{"entry": fmt.Sprintf("%+v", st), "origin_inflight": inflight, "blocked_goroutines": pikeGoroutines(), "trace": trace}, cs)
+			return
+		}
+		if scheduleLost {
+			// nothing is stuck (inspected above); what the clients were told in an episode whose schedule was not
+			// established (their own 20 s patience included) says nothing about the property
+			r.Add("episodes_not_judged_after_a_lost_schedule", 1)
 			return
 		}
 		r.Eval(1)
